@@ -413,7 +413,9 @@ if os.path.exists(_src):
             m = _re.match(r"Mulliken Charges\s+R\s+N=\s+(\d+)", line)
             if m: skip = (int(m.group(1)) + 4) // 5; continue
             keep.append(line)
-        fn = os.path.join(_tf.mkdtemp(), "job.fchk")
+        _d = _tf.mkdtemp()
+        __import__("atexit").register(__import__("shutil").rmtree, _d, True)
+        fn = os.path.join(_d, "job.fchk")
         open(fn, "w").write("".join(keep))
         try:
             o = load_one(fn)
